@@ -87,3 +87,4 @@ pub use crate::dcps::dcps_domain_participant::discovery_methods::{
 };
 pub use crate::dcps::channels;
 pub use crate::dcps::status_condition::DcpsStatusCondition;
+pub use crate::dcps::xtypes_glue::key_and_instance_handle::get_instance_handle_from_dynamic_data;
